@@ -85,7 +85,8 @@ pub fn plan_lifecycle_lp(w: &World, knobs: &Knobs, actor: &mut Actor, l: &Ledger
                 _ => ix::open_position_with_token_extensions(&wk, &actor.wallet, &actor.wallet, &mint, lo, hi, rng.chance(1, 2)),
             };
             flow.push((tx1(open_ix), "open_position".into()));
-            if lo > MIN_TICK - 100_000 && hi < MAX_TICK + 100_000 && lo < hi && rng.chance(2, 3) {
+            // (whatever the program let the LP open gets funded: a range it should have refused is then traded against)
+            if lo > MIN_TICK - 100_000 && hi < MAX_TICK + 100_000 && hi > MIN_TICK - 100_000 && lo < MAX_TICK + 100_000 && rng.chance(2, 3) {
                 let sp = pi.keys.tick_spacing;
                 let mut starts = vec![ta_start(lo, sp)];
                 if !starts.contains(&ta_start(hi, sp)) {
@@ -155,6 +156,23 @@ pub fn plan_lifecycle_lp(w: &World, knobs: &Knobs, actor: &mut Actor, l: &Ledger
                     )),
                     "reset_position_range".into(),
                 ));
+                // ... and the position is funded on its new range straight away (if the reset was refused, so is this)
+                let in_reach = |t: i32| t > MIN_TICK - 100_000 && t < MAX_TICK + 100_000;
+                if named_pool == ppi.keys.whirlpool && p.liquidity == 0 && in_reach(lo) && in_reach(hi) && rng.chance(2, 3) {
+                    let sp = ppi.keys.tick_spacing;
+                    let mut starts = vec![ta_start(lo, sp)];
+                    if !starts.contains(&ta_start(hi, sp)) {
+                        starts.push(ta_start(hi, sp));
+                    }
+                    for s in starts {
+                        if !l.exists(&ix::pda_tick_array(&named_pool, s)) {
+                            flow.push((tx1(init_array_ix(knobs, rng, &named_pool, &actor.wallet, s)), "init_tick_array".into()));
+                        }
+                    }
+                    let fake = decode::Position { lower: lo, upper: hi, ..Default::default() };
+                    let la = liq_accounts(actor, &ppi.keys, pk, &fake);
+                    flow.push((tx1(ix::increase_liquidity_v2(&la, crate::gen::liq_amount(rng, knobs.liq_bits.min(60).max(40)), u64::MAX, u64::MAX)), "increase_liquidity".into()));
+                }
             }
         }
         10 | 11 if !mine.is_empty() => {
